@@ -106,8 +106,45 @@ func extractWriter(w *World, fn *ssa.Function) ([]wPath, string) {
 	var paths []wPath
 	var problem string
 	type arrState map[ssa.Value]wElem // array alloc -> pending PutUintNN content
-	var walk func(b *ssa.BasicBlock, idx int, cur wPath, arrs arrState, visited map[*ssa.BasicBlock]int)
-	walk = func(b *ssa.BasicBlock, idx int, cur wPath, arrs arrState, visited map[*ssa.BasicBlock]int) {
+	type phiEnv map[*ssa.Phi]ssa.Value
+	var walk func(b *ssa.BasicBlock, idx int, cur wPath, arrs arrState, visited map[*ssa.BasicBlock]int, from *ssa.BasicBlock, env phiEnv)
+	walk = func(b *ssa.BasicBlock, idx int, cur wPath, arrs arrState, visited map[*ssa.BasicBlock]int, from *ssa.BasicBlock, env phiEnv) {
+		// the walk is per path, so a phi has one definite value: the edge of the block we came from
+		// (`v := FALSE; if m.Flag { v = TRUE }; buf.WriteByte(v)`)
+		if from != nil && idx == 0 {
+			ne := phiEnv{}
+			for k, v := range env {
+				ne[k] = v
+			}
+			for pi, pb := range b.Preds {
+				if pb != from {
+					continue
+				}
+				for _, in := range b.Instrs {
+					phi, ok := in.(*ssa.Phi)
+					if !ok {
+						break
+					}
+					v := phi.Edges[pi]
+					if p2, ok := v.(*ssa.Phi); ok {
+						if r, ok := env[p2]; ok {
+							v = r
+						}
+					}
+					ne[phi] = v
+				}
+				break
+			}
+			env = ne
+		}
+		resolve := func(v ssa.Value) ssa.Value {
+			if phi, ok := v.(*ssa.Phi); ok {
+				if r, ok := env[phi]; ok {
+					return r
+				}
+			}
+			return v
+		}
 		if problem != "" || len(paths) > 64 {
 			return
 		}
@@ -125,7 +162,7 @@ func extractWriter(w *World, fn *ssa.Function) ([]wPath, string) {
 				sc := cc.StaticCallee()
 				switch {
 				case sc != nil && isMethod(sc, "bytes", "Buffer", "WriteByte") && cc.Args[0] == buf:
-					kind, f, k := describeVal(cc.Args[1], recv)
+					kind, f, k := describeVal(resolve(cc.Args[1]), recv)
 					switch kind {
 					case "const":
 						cur.Elems = append(cur.Elems, wElem{Kind: "byte", Const: k})
@@ -205,9 +242,9 @@ func extractWriter(w *World, fn *ssa.Function) ([]wPath, string) {
 				// err != nil on a buffer write result: only the nil leg is a success path
 				if bo, ok := in.Cond.(*ssa.BinOp); ok && (bo.Op == token.NEQ || bo.Op == token.EQL) && isNilConst(bo.Y) && isErrorOfBufferWrite(bo.X, buf) {
 					if bo.Op == token.NEQ {
-						walk(b.Succs[1], 0, cur, arrs, visited)
+						walk(b.Succs[1], 0, cur, arrs, visited, b, env)
 					} else {
-						walk(b.Succs[0], 0, cur, arrs, visited)
+						walk(b.Succs[0], 0, cur, arrs, visited, b, env)
 					}
 					return
 				}
@@ -218,17 +255,17 @@ func extractWriter(w *World, fn *ssa.Function) ([]wPath, string) {
 				}
 				for leg, val := range []bool{true, false} {
 					nc := wPath{Conds: append(append([]wCond{}, cur.Conds...), wCond{desc, val}), Elems: append([]wElem{}, cur.Elems...)}
-					walk(b.Succs[leg], 0, nc, arrs, visited)
+					walk(b.Succs[leg], 0, nc, arrs, visited, b, env)
 				}
 				return
 			case *ssa.Jump:
-				walk(b.Succs[0], 0, cur, arrs, visited)
+				walk(b.Succs[0], 0, cur, arrs, visited, b, env)
 				return
 			}
 		}
 		_ = errVals
 	}
-	walk(fn.Blocks[0], 0, wPath{}, arrState{}, map[*ssa.BasicBlock]int{})
+	walk(fn.Blocks[0], 0, wPath{}, arrState{}, map[*ssa.BasicBlock]int{}, nil, phiEnv{})
 	if problem != "" {
 		return nil, problem
 	}
